@@ -48,10 +48,11 @@ def _op(draw):
         if draw(st.integers(0, 3)) == 0:
             on = "roots"  # the same query step applied to every dataset in turn (one analysis, several samples)
         return {"op": op, "on": on, "f": draw(st.integers(0, len(POOL0[op]) - 1)), "form": draw(st.sampled_from(["string", "ast", "ast", "callable"]))}
-    if k == 9:
+    if k in (9, 17):
         return {"op": "MetaData", "on": on, "d": draw(st.sampled_from([{}, {}, {"m": 1}, {"m": "x", "n": [1]}]))}
-    if k == 10:
-        return {"op": "QMetaData", "on": on, "d": draw(st.sampled_from([{}, {"a": 1}, {"b": 2}, {"a": 3, "b": 4}]))}
+    if k in (10, 18, 19):
+        # query metadata is most interesting directly on the stream that was just created (e.g. an (empty) MetaData wrapper)
+        return {"op": "QMetaData", "on": draw(st.sampled_from([-1, -1, -1, on])), "d": draw(st.sampled_from([{}, {"a": 1}, {"b": 2}, {"a": 3, "b": 4}]))}
     if k == 11:
         return {"op": "terminal", "on": on, "t": draw(st.integers(0, 3))}
     if k <= 15:
